@@ -41,7 +41,7 @@ def run(tier, replay=None):
     evs = []
     IMPLICIT = {"nop", "ret", "j", "call", "jal", "jalr", "beqz", "bnez", "li", "mv", "not", "neg", "seqz", "ble"}
     for i, (c, (a, b)) in enumerate(zip(cases, obs)):
-        if c["style"]["pseudo"] == "expand":
+        if c["style"]["pseudo"] != "keep":
             # a pseudo-instruction has operands without text of their own (x0 of nop, ra of ret, ...):
             # for the statements that were expanded only (kind, instruction) is compared
             prog = absprog.PROGRAMS[NAMES[c["prog"] - 1]]
@@ -50,7 +50,7 @@ def run(tier, replay=None):
                 side["diags"] = sorted([d[0], d[1], "*"] if d[1] in imp else d for d in side["diags"])
         active = sorted(k + "=" + v for k, v in c["style"].items() if k != "sites" and v not in
                         ("comma", "spaces", "none", "lower", "abi", "dec", "own-line", "keep"))
-        evs.append({"id": i + 1, "prop": "C13", "a": a, "b": b, "pseudo": c["style"]["pseudo"] == "expand",
+        evs.append({"id": i + 1, "prop": "C13", "a": a, "b": b, "pseudo": c["style"]["pseudo"] != "keep",
                     "what": "+".join(active), "rfrom": [], "rto": [], "lfrom": [], "lto": [], "ofrom": [], "oto": []})
     v, ress = validate_chunks("Trace_Rel", evs, wd, "rel.chunk", chunk=4000, heap="8g")
     for r in ress:
@@ -71,5 +71,5 @@ def run(tier, replay=None):
     return out.finish(extra_cov={
         "pairs": len(pairs), "base_programs": len(NAMES), "exhaustive": tier == "quick" or len(cases) < 60000,
         "evaluations": 2 * len(pairs), "distinct_nontrivial": len({p[1] for p in pairs}),
-        "rule": "Gen_Rewrite: all compositions of <= 2 (quick) / <= 4 (thorough) rewrites out of 10 dimensions (separators, indentation, comments, blank lines, mnemonic case, register names, immediate notation, label placement, omitted zero offset, pseudo expansion) x {every site, every other site} x 4 base programs (clean and violating)",
+        "rule": "Gen_Rewrite: all compositions of <= 2 (quick) / <= 4 (thorough) rewrites out of 10 dimensions (separators, indentation, comments, blank lines, mnemonic case, register names, immediate notation, label placement, omitted zero offset, pseudo expansion) x {every site, every other site} x 6 base programs (clean, violating, all 32 registers, alias labels)",
     })
